@@ -352,6 +352,14 @@ def p5(e: Engine, rep: Report):
     f = ctx.func.nested.get('recurse')
     where = ctx.func.qname
     rep.functions.add(where)
+    for lp, n, L, i in common.stale_index_sites(ctx.func.node):
+        rep.bad('P5', where, 'positional update `%s`'
+                % ' '.join(ast.unparse(n).split())[:50],
+                '`%s` is updated at index `%s`, which enumerates a copy of '
+                'the list taken before the loop: after a policy returned '
+                'more than one envelope the index denotes another envelope, '
+                'whose replacement overwrites it (its recipients vanish)'
+                % (L, i), loc=ctx.func.loc(n))
     if f is None:
         rep.error('anchor vanished: recurse() in Queue._run_policies')
         return
